@@ -18,6 +18,12 @@ def __npc(i_xxx):
         i_xxx(ins, fmap)
     return pcnpc
 
+def _store_(fmap, addr, val):
+    # addr is a value (the address has been read through the map already,
+    # before the pending delayed load lands): writing to fmap[mem(addr,n)]
+    # would evaluate it in the map a second time.
+    fmap[ptr(addr).unsigned()] = val
+
 # i_xxx is the translation of MIPS-R3000 instruction xxx.
 # ------------------------------------------------------------------------------
 
@@ -325,12 +331,12 @@ def i_SWL(ins, fmap):
     addr = fmap(base+off)
     val = fmap(src)
     fmap.update_delayed()
-    fmap[mem(addr,8)] = val[24:32]
+    _store_(fmap, addr, val[24:32])
     cond1 = (addr%4)!=0
-    fmap[mem(addr-1,8)] = tst(cond1,val[16:24],fmap[mem(addr-1,8)])
+    _store_(fmap, addr-1, tst(cond1,val[16:24],fmap[mem(addr-1,8)]))
     addr = addr - 1
     cond2 = cond1 & ((addr%4)!=0)
-    fmap[mem(addr-1,8)] = tst(cond2,val[8:16],fmap[mem(addr-1,8)])
+    _store_(fmap, addr-1, tst(cond2,val[8:16],fmap[mem(addr-1,8)]))
 
 @__npc
 def i_SWR(ins, fmap):
@@ -338,13 +344,13 @@ def i_SWR(ins, fmap):
     addr = fmap(base+off)
     val = fmap(src)
     fmap.update_delayed()
-    fmap[mem(addr,8)] = val[0:8]
+    _store_(fmap, addr, val[0:8])
     addr = addr + 1
     cond1 = (addr%4)!=0
-    fmap[mem(addr,8)] = tst(cond1,val[8:16],fmap[mem(addr,8)])
+    _store_(fmap, addr, tst(cond1,val[8:16],fmap[mem(addr,8)]))
     addr = addr + 1
     cond2 = cond1 & ((addr%4)!=0)
-    fmap[mem(addr,8)] = tst(cond2,val[16:24],fmap[mem(addr,8)])
+    _store_(fmap, addr, tst(cond2,val[16:24],fmap[mem(addr,8)]))
 
 @__npc
 def i_LB(ins, fmap):
@@ -396,22 +402,25 @@ def i_MTLO(ins,fmap):
 def i_SB(ins, fmap):
     src, base, off = ins.operands
     addr = fmap(base+off)
+    val = fmap(src[0:8])
     fmap.update_delayed()
-    fmap[mem(addr,8)] = fmap(src[0:8])
+    _store_(fmap, addr, val)
 
 @__npc
 def i_SH(ins, fmap):
     src, base, off = ins.operands
     addr = fmap(base+off)
+    val = fmap(src[0:16])
     fmap.update_delayed()
-    fmap[mem(addr,16)] = fmap(src[0:16])
+    _store_(fmap, addr, val)
 
 @__npc
 def i_SW(ins, fmap):
     src, base, off = ins.operands
     addr = fmap(base+off)
+    val = fmap(src)
     fmap.update_delayed()
-    fmap[mem(addr,32)] = fmap(src)
+    _store_(fmap, addr, val)
 
 @__npc
 def i_SLL(ins, fmap):
